@@ -338,6 +338,15 @@ def check(c, st):
                     ref_add('side-' + str(k))
                     ref_add(k)
                 total += 2 * len(f[1])
+            elif how == 'update-list-pairs':
+                # keys that are themselves 2-tuples ending in a small int ((host, port), (name, version)), handed over as a
+                # real list: an iterable of keys like any other, one addition per element
+                keys = [tuple(k) for k in f[1]]
+                tc.update(list(keys))
+                exact.update(keys)
+                total += len(keys)
+                for k in keys:
+                    ref_add(k)
             elif how == 'update-list':
                 tc.update(list(f[1]))
                 exact.update(f[1])
@@ -439,6 +448,9 @@ def run(ctx):
     fixed = [{'threshold': thr, 'feed': [['add', 'warm']] + [['update-iter', keys]]}
              for thr, keys in ((0.05, list(range(2500))), (0.01, list(range(6000))),
                                (0.1, [i % 7 if i % 3 else 'k%d' % i for i in range(1500)]), (0.02, list(range(4000))))]
+    hp = [['db%d' % (i % 4), [5432, 80, 443][i % 3]] for i in range(40)]
+    fixed += [{'threshold': thr, 'feed': [['update-list-pairs', hp[:n]], ['add', 'x'], ['update-list-pairs', hp[3:9]]]}
+              for thr, n in ((0.1, 18), (0.25, 40), (0.05, 7), (0.34, 1))]
     for j, c in enumerate(fixed):
         if j % ctx.nshards == ctx.shard % len(fixed):
             run_case(ctx, c, check, 'tc-one-call')
